@@ -517,6 +517,9 @@ func ruleAllocBound(pkg string) func(p *Prog, r *Report) {
 						continue
 					}
 					nSinks++
+					if sites := staticCallSites(p, fn, pkg); sites > 1 && !exported(fn) {
+						r.Credit(rule, sites-1) // an allocation in a shared helper stands for each of the helper's call sites
+					}
 					k := ord[kind]
 					ord[kind]++
 					key := fmt.Sprintf("%s:%s:%s#%d", rule, FnName(fn), kind, k)
